@@ -243,6 +243,11 @@ func (e *envelope) Sign(req *signature.SignRequest) ([]byte, error) {
 	}
 
 	// generate unprotected headers of COSE envelope.
+	for i, cert := range signer.CertificateChain() {
+		if cert == nil {
+			return nil, &signature.InvalidSignRequestError{Msg: fmt.Sprintf("certificate chain returned by the signer has no certificate at position %d", i)}
+		}
+	}
 	generateUnprotectedHeaders(req, signer, msg.Headers.Unprotected)
 
 	// timestamping
